@@ -7,10 +7,12 @@ import (
 	"fmt"
 	"io"
 	"net/http"
+	"os"
 	"regexp"
 	"strconv"
 	"strings"
 	"sync"
+	"syscall"
 	"time"
 
 	"github.com/google/pprof/internal/driver"
@@ -256,6 +258,10 @@ func (f *wfile) Close() error {
 	return nil
 }
 func (w *writer) Open(name string) (io.WriteCloser, error) {
+	// an output that cannot be opened (the fault a real file system reports for a missing directory)
+	if strings.HasPrefix(name, "/nonexistent-dir/") {
+		return nil, &os.PathError{Op: "open", Path: name, Err: syscall.ENOENT}
+	}
 	w.mu.Lock()
 	w.res.Order = append(w.res.Order, name)
 	w.mu.Unlock()
